@@ -83,20 +83,21 @@ type opD struct {
 }
 
 type desc struct {
-	Kind     string `json:"kind"` // seq | stress | pipe | api
-	Max      int    `json:"max,omitempty"`
-	MaxConns int    `json:"maxconns,omitempty"`
-	Reset    bool   `json:"reset,omitempty"`
-	Lifo     bool   `json:"lifo,omitempty"`
-	Client   bool   `json:"client,omitempty"`   // seq: go through fasthttp.Client (shared reader pool) instead of a HostClient
-	Attempts int    `json:"attempts,omitempty"` // seq: MaxIdemponentCallAttempts (0 = 1) with the default RetryIf; attempt a of a call uses script a
-	Objs     string `json:"objs,omitempty"`     // seq: "" fresh Request/Response per call | shared (one pair re-used, never Reset) | pool (Acquire/Release)
-	Ops      []opD  `json:"ops,omitempty"`
-	Seed     int64  `json:"seed,omitempty"`
-	Workers  int    `json:"workers,omitempty"`
-	PerW     int    `json:"perw,omitempty"`
-	Retry    bool   `json:"retry,omitempty"`
-	Skip     bool   `json:"skip,omitempty"` // stress: some GETs are issued with resp.SkipBody
+	Kind      string `json:"kind"` // seq | stress | pipe | api
+	Max       int    `json:"max,omitempty"`
+	MaxConns  int    `json:"maxconns,omitempty"`
+	Reset     bool   `json:"reset,omitempty"`
+	Lifo      bool   `json:"lifo,omitempty"`
+	Client    bool   `json:"client,omitempty"`    // seq: go through fasthttp.Client (shared reader pool) instead of a HostClient
+	StreamCfg bool   `json:"streamcfg,omitempty"` // seq: streaming is switched on by HostClient/Client.StreamResponseBody, resp.StreamBody is left alone
+	Attempts  int    `json:"attempts,omitempty"`  // seq: MaxIdemponentCallAttempts (0 = 1) with the default RetryIf; attempt a of a call uses script a
+	Objs      string `json:"objs,omitempty"`      // seq: "" fresh Request/Response per call | shared (one pair re-used, never Reset) | pool (Acquire/Release)
+	Ops       []opD  `json:"ops,omitempty"`
+	Seed      int64  `json:"seed,omitempty"`
+	Workers   int    `json:"workers,omitempty"`
+	PerW      int    `json:"perw,omitempty"`
+	Retry     bool   `json:"retry,omitempty"`
+	Skip      bool   `json:"skip,omitempty"` // stress: some GETs are issued with resp.SkipBody
 }
 
 // ---- rendering symbols as bytes ------------------------------------------------------------------
@@ -375,6 +376,7 @@ type openStream struct {
 // anything the library leaves behind in a re-used value (SkipBody after HEAD, Connection: close after MaxConnDuration, ...) stays
 type callerObjs struct {
 	mode                            string
+	streamCfg                       bool
 	req                             *fasthttp.Request
 	resp                            *fasthttp.Response
 	busy                            bool // the shared Response has an open body stream
@@ -410,6 +412,7 @@ func runSeq(d desc) (obs [][]uint64) {
 		if d.Lifo {
 			c.ConnPoolStrategy = fasthttp.LIFO
 		}
+		c.StreamResponseBody = d.StreamCfg
 		hc = c
 	} else {
 		h := &fasthttp.HostClient{
@@ -422,9 +425,10 @@ func runSeq(d desc) (obs [][]uint64) {
 		if d.Lifo {
 			h.ConnPoolStrategy = fasthttp.LIFO
 		}
+		h.StreamResponseBody = d.StreamCfg
 		hc = h
 	}
-	objs = &callerObjs{mode: d.Objs, req: &fasthttp.Request{}, resp: &fasthttp.Response{}}
+	objs = &callerObjs{mode: d.Objs, streamCfg: d.StreamCfg, req: &fasthttp.Request{}, resp: &fasthttp.Response{}}
 	streams := map[int]*openStream{}
 	pool := func() []uint64 { return []uint64{uint64(hc.IdleConnsCount()), uint64(hc.ConnsCount())} }
 	for _, op := range d.Ops {
@@ -453,7 +457,7 @@ func runOp(nw *fnet, hc doer, streams map[int]*openStream, pool func() []uint64,
 				if !objs.started || objs.skip != o.Skip {
 					resp.SkipBody = o.Skip
 				}
-				if !objs.started || objs.stream != o.Stream {
+				if (!objs.started || objs.stream != o.Stream) && !objs.streamCfg {
 					resp.StreamBody = o.Stream
 				}
 				if o.ReqClose && !objs.reqClose {
@@ -472,7 +476,9 @@ func runOp(nw *fnet, hc doer, streams map[int]*openStream, pool func() []uint64,
 				if o.ReqClose {
 					req.SetConnectionClose()
 				}
-				resp.StreamBody = o.Stream
+				if !objs.streamCfg {
+					resp.StreamBody = o.Stream
+				}
 				resp.SkipBody = o.Skip
 			}
 			req.SetRequestURI("http://scripted/")
@@ -1105,7 +1111,7 @@ func pipeServe(c net.Conn, seed int64, wg *sync.WaitGroup) {
 func runPipe(d desc) []hcall {
 	var swg sync.WaitGroup
 	pc := &fasthttp.PipelineClient{
-		Addr: "pipe:80", MaxConns: 1, MaxPendingRequests: 4 + int(d.Seed%3)*14, ReadTimeout: 300 * time.Millisecond,
+		Addr: "pipe:80", MaxConns: 1 + int(d.Seed/3%2), MaxPendingRequests: 4 + int(d.Seed%3)*14, ReadTimeout: 300 * time.Millisecond,
 		Logger: nopLogger{},
 		Dial: func(addr string) (net.Conn, error) {
 			p := fasthttputil.NewPipeConns()
@@ -1229,12 +1235,15 @@ func wireLen(isHead bool, r respD) int {
 }
 
 func genSeq(r *rand.Rand) desc {
-	d := desc{Kind: "seq", Max: hlib.Pick(r, []int{0, 0, 2, 3, 4}), MaxConns: 1 + r.Intn(3), Reset: r.Intn(15) == 0, Lifo: r.Intn(2) == 0, Client: r.Intn(3) == 0, Objs: hlib.Pick(r, []string{"", "", "shared", "pool"}), Attempts: hlib.Pick(r, []int{1, 1, 2, 3})}
+	d := desc{Kind: "seq", Max: hlib.Pick(r, []int{0, 0, 2, 3, 4}), MaxConns: 1 + r.Intn(3), Reset: r.Intn(15) == 0, Lifo: r.Intn(2) == 0, Client: r.Intn(3) == 0, Objs: hlib.Pick(r, []string{"", "", "shared", "pool"}), Attempts: hlib.Pick(r, []int{1, 1, 2, 3}), StreamCfg: r.Intn(6) == 0}
 	ncalls := 2 + r.Intn(7)
 	var open []int
 	skipAllowed := r.Intn(4) == 0
 	for t := 0; t < ncalls; t++ {
 		o := optsD{Head: r.Intn(6) == 0, ReqClose: r.Intn(12) == 0, Stream: r.Intn(5) < 2, API: hlib.Pick(r, []string{"do", "do", "timeout", "deadline"})}
+		if d.StreamCfg {
+			o.Stream = true
+		}
 		if o.Head && r.Intn(3) == 0 {
 			o.Skip = true
 		}
@@ -1308,7 +1317,11 @@ func genSeq(r *rand.Rand) desc {
 	// one more call to see what the pool hands out
 	last := optsD{API: "do"}
 	resp := respD{Head: headD{Fr: "len", N: 1}, Body: []*headD{nil}}
+	last.Stream = d.StreamCfg
 	d.Ops = append(d.Ops, opD{Op: "call", T: ncalls, Opts: &last, Sc: &scriptD{Resp: resp, Send: 2}})
+	if d.StreamCfg {
+		d.Ops = append(d.Ops, opD{Op: "sread", T: ncalls, N: 2}, opD{Op: "sclose", T: ncalls})
+	}
 	return padAttempts(d)
 }
 
